@@ -887,7 +887,7 @@ func (e *Env) callExpr(ex *ast.CallExpr) (SVal, error) {
 			return e.X.unbox(e.St, t, et), nil
 		}
 		return mkU(t), nil
-	case "keysadded", "mapsame":
+	case "keysadded", "mapsame", "mapput":
 		// keysadded(m, k...): after the callback the map m holds exactly the keys it held before plus k...; mapsame(m): unchanged
 		if len(ex.Args) < 1 {
 			return SVal{}, fmt.Errorf("%s(m, ...)", fname)
@@ -911,6 +911,22 @@ func (e *Env) callExpr(ex *ast.CallExpr) (SVal, error) {
 		vals0 := q(e.X.D.constOf(mv.Loc+"#val", "(Array U "+vs+")"))
 		if fname == "mapsame" {
 			return mkBool(and(eq(has, has0), eq(vals, vals0))), nil
+		}
+		if fname == "mapput" {
+			// mapput(m, k, v): after the callback m is the map it was before with k bound to v (every other entry untouched)
+			if len(ex.Args) != 3 {
+				return SVal{}, fmt.Errorf("mapput(m, k, v)")
+			}
+			kv, err := e.eval(ex.Args[1])
+			if err != nil {
+				return SVal{}, err
+			}
+			vv, err := e.eval(ex.Args[2])
+			if err != nil {
+				return SVal{}, err
+			}
+			kt := e.X.keyTerm(e.St, kv)
+			return mkBool(and(eq(has, "(store "+has0+" "+kt+" true)"), eq(vals, "(store "+vals0+" "+kt+" "+e.X.termOf(e.St, vv)+")"))), nil
 		}
 		want := has0
 		for _, ka := range ex.Args[1:] {
